@@ -394,6 +394,13 @@ def run(R, env):
                 else:
                     if not (val[0] == "mut" and val[2] == "std::vec::Vec::remove" and vals(val[1]) and val[3][0][0] == "payload" and shared.unwrap_payload(val[3][0])[0] == "call" and shared.unwrap_payload(val[3][0])[1].endswith("Iterator::position") and vals(shared.unwrap_payload(val[3][0])[2][0]) and eq_closure(shared.unwrap_payload(val[3][0])[2][1])):
                         good = False
+            if not good and alts and all(shared.is_stored_base(prog, b_, "config", CRATE) and not d_ for b_, d_ in alts):
+                fnb = prog.body(op["fn"])
+                higher = fnb is not None and any((call_name(t_) or "").split("::")[-1] in ("call", "call_once", "call_mut") and "ops::Fn" in (call_name(t_) or "") for _, t_ in fnb.calls())
+                if higher:
+                    # the loaded config is edited in place by a closure the caller hands in (`edit(&mut cfg.validators, &addr)?`)
+                    # and saved: mutation through a called closure parameter is not modelled, the stored value is not decided
+                    R.set_undecided(["C14.R5"], "the validator list is edited by a closure passed to a shared helper; mutation through a called closure parameter is not modelled")
             R.ob("C14.R5", v + ":delta", good, "%s stores %s; expected loaded config with only native_chain_config.validators %s" % (v, fmt(op["args"][2])[:200], "pushed with the validated address" if kind == "add" else "with the found index removed"), loc=op["loc"], fn=hk)
         if kind == "add":
             def dupg(t):
@@ -406,7 +413,9 @@ def run(R, env):
             pos = lambda t: t[0] == "call" and t[1].endswith("Iterator::position") and vals(t[2][0]) and eq_closure(t[2][1])
             rem, n = world_edges(h, pos, False)
             w = h.with_removed(rem).settle()
-            R.ob("C14.R5", "RemoveValidator:unknown-rejected", n >= 1 and not any(e["kind"] != "err" for e in exits(w)), "removing an address that is not in the list succeeds", fn=hk)
+            from engine.analysis import success_exits as _se14
+            R.ob("C14.R5", "RemoveValidator:unknown-rejected", (n >= 1 or bool(_se14(h))) and not _se14(w), "removing an address that is not in the list succeeds", fn=hk)
+        R.clear_undecided(["C14.R5"])
 
 
 def channel_checks(R, prog, b, rule, src=None):
